@@ -202,6 +202,9 @@ def c07_programs(rng, n):
     out.append(prog([("u1", [("remote_exec", "c", 1), ("reconfigure", "c", False, True), ("setcallback", "c", False, 201), ("waitclose", "c"),
                              ("remote_exec", "s", 2), ("receive_all", "s"), ("hasreceiver",)])],
                     {1: [("send", "channel", 201), ("waitclose", "channel")], 2: [("send", "channel", 211)]}))
+    # the initiator dropped its callback channel ("sendonly" on the worker), then the remote code fails: the error still travels
+    out.append(prog([("u1", [("remote_exec", "c", 1), ("setcallback", "c", True), ("drop", "c"), ("open_gate", "go"), ("sleep", 5), ("hasreceiver",)])],
+                    {1: [("send", "channel", 201), ("wait_gate", "go"), ("sleep", 1), ("raise",)]}))
     # the failing initiator-side channel was dropped
     out.append(prog([("u1", [("remote_exec", "c", 1), ("setcallback", "c", False, 201), ("drop", "c"), ("remote_exec", "e", 2), ("receive_all", "e"), ("hasreceiver",)])],
                     {1: [("send", "channel", 201), ("send", "channel", 202)], 2: [("send", "channel", 221)]}))
@@ -257,6 +260,11 @@ def c10_programs(rng, n):
     # a dropped callback channel racing with the end of the remote code
     out.append(prog([("u1", [("remote_exec", "c", 1), ("setcallback", "c", True), ("drop", "c"), ("remote_exec", "e", 2), ("receive_all", "e")])],
                     {1: [("send", "channel", 201)], 2: [("send", "channel", 221)]}))
+    # ... and with a remote code that fails after the channel object was dropped: the callback still gets its endmarker
+    out.append(prog([("u1", [("remote_exec", "c", 1), ("setcallback", "c", True), ("drop", "c"), ("open_gate", "go"), ("remote_exec", "e", 2), ("receive_all", "e"), ("sleep", 3)])],
+                    {1: [("send", "channel", 201), ("wait_gate", "go"), ("raise",)], 2: [("send", "channel", 221)]}))
+    out.append(prog([("u1", [("remote_exec", "c", 1), ("setcallback", "c", True), ("drop", "c"), ("remote_exec", "e", 2), ("receive_all", "e"), ("sleep", 3)])],
+                    {1: [("send", "channel", 201), ("raise",)], 2: [("send", "channel", 221)]}))
     # the peer closed first, then setcallback (delivers the endmarker itself), then the gateway ends: still exactly one endmarker
     out.append(prog([("u1", [("remote_exec", "c", 1), ("waitclose", "c"), ("setcallback", "c", True), ("exit",), ("join",)])],
                     {1: [("send", "channel", 201), ("send", "channel", 202)]}))
@@ -321,6 +329,10 @@ def c18_programs(rng, n):
     out.append(prog([("u1", [("tablesize",), ("remote_exec", "c", 1), ("setcallback", "c", True), ("drop", "c"),
                              ("remote_exec", "e", 2), ("receive_all", "e"), ("drop", "e"), ("tablesize_settled",)])],
                     {1: [("send", "channel", 201)], 2: [("send", "channel", 221)]}))
+    # ... the remote code fails after the drop
+    out.append(prog([("u1", [("tablesize",), ("remote_exec", "c", 1), ("setcallback", "c", True), ("drop", "c"), ("open_gate", "go"),
+                             ("remote_exec", "e", 2), ("receive_all", "e"), ("drop", "e"), ("tablesize_settled",)])],
+                    {1: [("send", "channel", 201), ("wait_gate", "go"), ("raise",)], 2: [("send", "channel", 221)]}))
     # setcallback on a channel with queued items while the channel gets closed during the drain (by the callback itself / by another thread)
     out.append(prog([("u1", [("tablesize",), ("remote_exec", "c", 1), ("wait_gate", "sent"), ("setcallback", "c", False, 202, "closeself"),
                              ("drop", "c"), ("open_gate", "fin"), ("remote_exec", "e", 2), ("receive_all", "e"), ("drop", "e"), ("tablesize_settled",)])],
